@@ -36,7 +36,7 @@ MALFORMED = [
 ]
 
 
-def sem_of_registry(u, names, spellings):
+def sem_of_registry(u, names, spellings, dims=()):
     """observable meaning through the public / read-only API"""
     out = {}
     for n in names:
@@ -52,6 +52,8 @@ def sem_of_registry(u, names, spellings):
         out[n] = capture(one)
     for s in spellings:
         out["name:" + s] = capture(lambda s=s: u.get_name(s))
+    for d in dims:
+        out["dimname:" + d] = capture(lambda d=d: sorted([k, frac_s(regs.to_frac(v))] for k, v in u.get_dimensionality(d).items()))
     return out
 
 
@@ -111,11 +113,14 @@ class Check(Property):
                 ops += [{"op": "root", "u": [[n, "1/1"]]}, {"op": "dim", "u": [[n, "1/1"]]}, {"op": "unit_info", "s": n}]
             for s in spellings:
                 ops.append({"op": "resolve", "s": s})
+            dimnames = [l.split("=")[0].strip() for kind_, l in g.lines if kind_ == "dim"]
+            for d in dimnames:
+                ops.append({"op": "dim", "u": [[d, "1/1"]]})
             ops.append({"op": "reset"})
             for var in (variants if self.tier != "quick" else rng.sample(variants, 5)):
                 self.bump("generated." + var)
                 out.append({"kind": "gen", "file": i, "variant": var, "text": txt, "names": names, "spellings": spellings,
-                            "seed": rng.getrandbits(32), "ops": ops, "lines": [l for _, l in g.lines]})
+                            "seed": rng.getrandbits(32), "ops": ops, "lines": [l for _, l in g.lines], "dims": dimnames})
         for label, snippet in MALFORMED:
             self.bump("malformed")
             out.append({"kind": "malformed", "label": label, "snippet": snippet, "ops": []})
@@ -165,7 +170,7 @@ class Check(Property):
         if var == "perm":
             head = [l for l in lines if not l.startswith(("@", " "))]
             tail = lines[len(head):]
-            movable = [i for i, l in enumerate(head) if "=" in l and not l.startswith("[")]
+            movable = [i for i, l in enumerate(head) if "=" in l]      # derived-dimension lines move too (forward references)
             perm = movable[:]
             rnd.shuffle(perm)
             new = list(head)
@@ -268,7 +273,7 @@ class Check(Property):
         logging.disable(logging.CRITICAL)
         try:
             reg_ = self.load_variant(c)
-            sem = sem_of_registry(reg_, c["names"], c["spellings"])
+            sem = sem_of_registry(reg_, c["names"], c["spellings"], c.get("dims", []))
         except Exception as exc:  # noqa: BLE001
             return [{"load-error": type(exc).__name__ + ": " + str(exc)[:200]}]
         finally:
@@ -295,6 +300,9 @@ class Check(Property):
                 sem[n] = {"err": (r.get("err") or d.get("err") or info.get("err"))}
         for s in c["spellings"]:
             sem["name:" + s] = mo[i]
+            i += 1
+        for d in c.get("dims", []):
+            sem["dimname:" + d] = {"ok": sorted(mo[i]["ok"])} if "ok" in mo[i] else mo[i]
             i += 1
         return [sem]
 
@@ -380,6 +388,18 @@ class Check(Property):
                                 v.append(f"C10 file {c['file']} [{c['variant']}] unit {n}: factor has type {type(pf).__name__}")
                         elif isinstance(pf, float) or Fraction(pf) != f:
                             v.append(f"C10 file {c['file']} [{c['variant']}] unit {n}: factor {pf!r} but the definitions say {f}")
+                for d in c.get("dims", []):
+                    try:
+                        want_d = proj.dim_of_dims({d: Fraction(1)})
+                    except D.DefError:
+                        continue
+                    try:
+                        got_d = {k: regs.to_frac(x) for k, x in u.get_dimensionality(d).items()}
+                    except Exception as exc:  # noqa: BLE001
+                        got_d = type(exc).__name__
+                    if got_d != want_d:
+                        v.append(f"C10 file {c['file']} [{c['variant']}] derived dimension {d}: get_dimensionality gives {got_d} "
+                                 f"but the definitions say {want_d}")
                 for g in proj.groups:
                     want = {b["name"] for b in g["body"] if b["kind"] == "unit"}
                     for used in g["using"]:
